@@ -56,6 +56,10 @@ type Stage struct {
 	// TimeoutIsViolation: the watchdog firing is a violation (deadlock
 	// checks); otherwise it is inconclusive.
 	TimeoutIsViolation bool
+	// CrashSig, if set, computes the signature of a child crash from the
+	// excerpt of the child's log and the journalled last case (default: the
+	// first panic / fatal line of the log).
+	CrashSig func(logTail, lastCase string) string
 }
 
 func (s Stage) variant() string {
